@@ -711,7 +711,8 @@ impl SubscriptionActor {
 //@ requires old(self).inv()
 //@ ensures final(self).inv()
 //@ # C04/C01: every expired lease's message goes back to the end of the backlog, nothing else changes
-//@ ensures[C01,C04] final(self)@ == (SubView { backlog: old(self)@.backlog + expired@.map_values(|p: PulledMessage| p.msg()), ..old(self)@ })
+//@ # (C11: also when the topic has been deleted in the meantime - the subscription keeps serving what it holds)
+//@ ensures[C01,C04,C11] final(self)@ == (SubView { backlog: old(self)@.backlog + expired@.map_values(|p: PulledMessage| p.msg()), ..old(self)@ })
 //@ closure 1 ret msg: Arc<TopicMessage>
 //@ closure 1 ensures msg == $1.msg()
 //@ proof-before /if !self\.backlog\.is_empty\(\)/ { assert(self@.backlog =~= old(self)@.backlog + expired@.map_values(|p: PulledMessage| p.msg())); }
